@@ -428,6 +428,19 @@ fn fragmented(quick: bool) -> Vec<Scen> {
             v.push(sc);
         }
     }
+    if !quick {
+        // a command of 65 maximal packets and a tail (1.09 GB; beyond the 2^30 bytes a MySQL
+        // server would accept, but the framing rules know no such limit), whole and with one cut
+        // inside the last packets
+        let size = 65 * MAXP + 10;
+        let text = ascii_pattern(size - 1, 9);
+        let (c1, cb1) = small_cmd(COM_QUERY, &text);
+        let (c2, cb2) = small_cmd(COM_QUERY, b"after");
+        let mut sc = Scen::new(format!("query payload of {} bytes (66 packets), then a small query", size), Conv::new(vec![c1, c2]), vec![auth_cb(), cb1, cb2]);
+        let end = sc.ends[1];
+        sc.sets = Some(vec![vec![], vec![end - 9]]);
+        v.push(sc);
+    }
     v
 }
 
